@@ -61,6 +61,89 @@ func hdrPairs(h http.Header) [][2]string {
 	return r
 }
 
+// body values of other types than string: the request body is the serializer's output for exactly the body that was given -
+// also for a nil slice, a nil map, an empty slice, an empty map (JSONBodySerializer would write null / [] / {})
+type c17BodyOut struct {
+	Part  string `json:"part"`
+	Ctor  string `json:"ctor"`
+	Kind  string `json:"kind"`
+	Calls int    `json:"calls"` // serializer invocations during one evaluation
+	Seen  string `json:"seen"`  // what the serializer was given
+	Body  string `json:"body"`  // body the transport received
+	Err   bool   `json:"err"`
+}
+
+func c17BodyKinds(w *ndWriter) int {
+	n := 0
+	one := func(ctor, kind string, run func(api *network.SimpleAPIDef) (func() bool, error)) {
+		env := &c18Env{}
+		st := &stubTransport{env: env, body: "RESP"}
+		s := network.NewSimpleHTTPWithClientAndInterceptors(&http.Client{Transport: st})
+		api := network.NewSimpleAPIWithSimpleHTTP("http://stub.invalid", s)
+		o := c17BodyOut{Part: "bodykind", Ctor: ctor, Kind: kind}
+		api.RequestSerializerForJSON = func(body interface{}) (io.Reader, error) {
+			o.Calls++
+			o.Seen = fmt.Sprintf("%T:%v", body, body)
+			return strings.NewReader("SER:" + fmt.Sprintf("%v", body)), nil
+		}
+		api.ResponseDeserializer = func(body []byte, target interface{}) (interface{}, error) { return target, nil }
+		eval, _ := run(api)
+		o.Err = eval()
+		if len(env.captured) > 0 {
+			o.Body = env.captured[len(env.captured)-1].Body
+		}
+		w.write(o)
+		n++
+	}
+	var target string
+	post := func(kind string) {
+		switch kind {
+		case "nilslice":
+			var b []string
+			one("PostJSON", kind, func(api *network.SimpleAPIDef) (func() bool, error) {
+				m := network.APIMakePostJSONBody[[]string, string](api, "/x")(network.PathParam{}, b, &target)
+				return func() bool { return m.Eval().Err != nil }, nil
+			})
+		case "emptyslice":
+			one("PutJSON", kind, func(api *network.SimpleAPIDef) (func() bool, error) {
+				m := network.APIMakePutJSONBody[[]string, string](api, "/x")(network.PathParam{}, []string{}, &target)
+				return func() bool { return m.Eval().Err != nil }, nil
+			})
+		case "nilmap":
+			var b map[string]int
+			one("PatchJSON", kind, func(api *network.SimpleAPIDef) (func() bool, error) {
+				m := network.APIMakePatchJSONBody[map[string]int, string](api, "/x")(network.PathParam{}, b, &target)
+				return func() bool { return m.Eval().Err != nil }, nil
+			})
+		case "emptymap":
+			one("PostJSON", kind, func(api *network.SimpleAPIDef) (func() bool, error) {
+				m := network.APIMakePostJSONBody[map[string]int, string](api, "/x")(network.PathParam{}, map[string]int{}, &target)
+				return func() bool { return m.Eval().Err != nil }, nil
+			})
+		case "slice":
+			one("PostJSON", kind, func(api *network.SimpleAPIDef) (func() bool, error) {
+				m := network.APIMakePostJSONBody[[]string, string](api, "/x")(network.PathParam{}, []string{"a", "b"}, &target)
+				return func() bool { return m.Eval().Err != nil }, nil
+			})
+		case "zeroint":
+			one("PostJSON", kind, func(api *network.SimpleAPIDef) (func() bool, error) {
+				m := network.APIMakePostJSONBody[int, string](api, "/x")(network.PathParam{}, 0, &target)
+				return func() bool { return m.Eval().Err != nil }, nil
+			})
+		case "custom-nilslice":
+			var b []string
+			one("WithBodySerializer", kind, func(api *network.SimpleAPIDef) (func() bool, error) {
+				m := network.APIMakeDoNewRequestWithBodySerializer[[]string, string](api, "POST", "/x", "text/x-custom", api.RequestSerializerForJSON)(network.PathParam{}, b, &target)
+				return func() bool { return m.Eval().Err != nil }, nil
+			})
+		}
+	}
+	for _, k := range []string{"nilslice", "emptyslice", "nilmap", "emptymap", "slice", "zeroint", "custom-nilslice"} {
+		post(k)
+	}
+	return n
+}
+
 func c17Exec(c *c17Case) map[string]interface{} {
 	env := &c18Env{}
 	st := &stubTransport{env: env, body: "RESP", fail: c.Fault == "transport"}
@@ -220,6 +303,14 @@ func hdrPairsAll(h http.Header) [][2]string {
 
 func c17Main(args []string) error {
 	switch args[0] {
+	case "bodykinds":
+		w, err := newNDWriter(flagVal(args, "out", "c17.body.ndjson"))
+		if err != nil {
+			return err
+		}
+		defer w.close()
+		fmt.Printf("{\"runs\":%d}\n", c17BodyKinds(w))
+		return nil
 	case "exec":
 		w, err := newNDWriter(flagVal(args, "out", "c17.trace.ndjson"))
 		if err != nil {
